@@ -57,7 +57,15 @@ def session_burst(rng, version, hist):
     for _ in range(rng.choice([3, 6, 10, 16])):
         r = rng.random()
         if r < 0.3:
-            script.append(("L", f"{node};255;4;0;0;{gw.fw_hex(t, v, rng.randrange(100), rng.randrange(65536), 0)}\n"))
+            if rng.random() < 0.3:
+                # the node reports exactly the firmware it is scheduled for (it was flashed before, or asks again
+                # after a restarted update): still a config request of a scheduled node, still answered
+                from .gw_spec import crc_modbus, pad_fw
+                data = pad_fw(img)
+                words = (t, v, len(data) // 16, crc_modbus(data), rng.choice([0, 0x0201]))
+            else:
+                words = (t, v, rng.randrange(100), rng.randrange(65536), 0)
+            script.append(("L", f"{node};255;4;0;0;{gw.fw_hex(*words)}\n"))
         elif r < 0.65:
             idx = rng.choice([0, 1, blocks - 1, blocks, rng.randrange(blocks), 65535])
             script.append(("L", f"{node};255;4;0;2;{gw.fw_hex(t, v, idx)}\n"))
